@@ -324,6 +324,9 @@ func (c *Ctx) Finish(verifDir string, kf *KnownFile, start time.Time, seed int) 
 // the obligations are evaluated again, under this property's rule id, so that
 // each property's check stands alone.
 func (c *Ctx) Borrow(from string, ids map[string]string, run func(*Ctx)) {
+	if c.borrow != nil {
+		return // a borrowed rule function does not borrow in turn
+	}
 	saved := c.Explain
 	c.borrow, c.borrowFrom = ids, from
 	run(c)
